@@ -115,6 +115,152 @@ def _result_field(fn, names, repo=None, mi=None):
     return None, None, None
 
 
+def _walk_own(fn):
+    """Nodes of the function itself (nested functions / lambdas / classes are not entered)."""
+    todo = list(fn.body)
+    while todo:
+        x = todo.pop()
+        yield x
+        if isinstance(x, (ast.FunctionDef, ast.AsyncFunctionDef, ast.Lambda, ast.ClassDef)):
+            continue
+        todo.extend(ast.iter_child_nodes(x))
+
+
+def _const_int(e):
+    if isinstance(e, ast.UnaryOp) and isinstance(e.op, ast.USub) and isinstance(e.operand, ast.Constant) and isinstance(e.operand.value, int) and not isinstance(e.operand.value, bool):
+        return -e.operand.value
+    return e.value if isinstance(e, ast.Constant) and isinstance(e.value, int) and not isinstance(e.value, bool) else None
+
+
+def _split_step_result(repo, fn):
+    """The env.step result is a 5-tuple (gymnasium protocol, TRUSTED).  A routine that keeps the tuple in ONE variable and takes it apart
+    later (`r = env.step(a); o, rew, term, trunc, info = r`, `o, rew = r[:2]; term, trunc, info = r[2:]`, `r[2]`), or hands it to the
+    constructor of an immutable five-field record (`rec = Rec(*env.step(a))`), is the same program as one that names the five positions
+    at the call.  Returns a private copy of the function rewritten that way (element-wise: `X[c]` -> the c-th position, `X[a:b]` / `X`
+    -> the tuple of the positions, an unpacking of such a tuple -> one copy per position), or None when the function is not of that
+    form (then nothing is concluded from it)."""
+    from ..expand import clone
+    params = set(param_names(fn))
+
+    def is_step(c):
+        return isinstance(c, ast.Call) and isinstance(c.func, ast.Attribute) and c.func.attr == "step" and isinstance(c.func.value, ast.Name) and c.func.value.id in params
+    new = clone(fn)
+    new._module, new._qual, new._parent = fn._module, getattr(fn, "_qual", None), getattr(fn, "_parent", None)
+    own = list(_walk_own(new))
+    # (as in the loop reader, the step statement is the one assignment of an env.step result; further calls are judged by R2)
+    if sum(1 for x in own if isinstance(x, (ast.Assign, ast.AnnAssign, ast.AugAssign, ast.NamedExpr)) and x.value is not None and any(is_step(y) for y in ast.walk(x.value))) != 1:
+        return None
+    whole, record = [], []
+    for s in own:
+        if isinstance(s, ast.Assign) and len(s.targets) == 1 and isinstance(s.targets[0], ast.Name):
+            v = s.value
+            if is_step(v):
+                whole.append(s)
+            elif isinstance(v, ast.Call) and len(v.args) == 1 and not v.keywords and isinstance(v.args[0], ast.Starred) and is_step(v.args[0].value) and isinstance(v.func, (ast.Name, ast.Attribute)):
+                record.append(s)
+    if len(whole) + len(record) != 1:
+        return None
+    st = (whole or record)[0]
+    X = st.targets[0].id
+    pos = [f"{X}__p{i}" for i in range(5)]
+    names = {x.id for x in ast.walk(new) if isinstance(x, ast.Name)} | params
+    if set(pos) & names:
+        return None
+
+    def nm(i, ctx):
+        return ast.copy_location(ast.Name(id=pos[i], ctx=ctx()), st)
+
+    def tup(idx, ctx=ast.Load):
+        return ast.copy_location(ast.Tuple(elts=[nm(i, ctx) for i in idx], ctx=ctx()), st)
+    generated = set()
+    if record:
+        call = st.value
+        fields = _record_type_fields(new, call.func, repo, fn._module)
+        if not fields or len(fields) != 5:
+            return None
+        step_call = call.args[0].value
+        call.args = [nm(i, ast.Load) for i in range(5)]
+        extra = [ast.copy_location(ast.Assign(targets=[tup(range(5), ast.Store)], value=step_call), st)]
+    else:
+        if X in params or sum(1 for x in ast.walk(new) if isinstance(x, ast.Name) and x.id == X and isinstance(x.ctx, (ast.Store, ast.Del))) != 1:
+            return None
+        if any(isinstance(x, ast.Name) and x.id == X for y in ast.walk(new) if y is not new and isinstance(y, (ast.FunctionDef, ast.AsyncFunctionDef, ast.Lambda, ast.ClassDef)) for x in ast.walk(y)):
+            return None
+        if any(isinstance(x, (ast.Global, ast.Nonlocal)) and X in x.names for x in ast.walk(new)):
+            return None
+
+        class Sub(ast.NodeTransformer):
+            ok = True
+
+            def visit_Subscript(self, e):
+                if isinstance(e.value, ast.Name) and e.value.id == X and isinstance(e.ctx, ast.Load):
+                    c = _const_int(e.slice)
+                    if c is not None and -5 <= c < 5:
+                        return nm(c % 5, ast.Load)
+                    if isinstance(e.slice, ast.Slice) and e.slice.step is None:
+                        lo = 0 if e.slice.lower is None else _const_int(e.slice.lower)
+                        hi = 5 if e.slice.upper is None else _const_int(e.slice.upper)
+                        if lo is not None and hi is not None:
+                            t = tup(range(5)[lo:hi])
+                            generated.add(id(t))
+                            return t
+                    Sub.ok = False
+                    return e
+                return self.generic_visit(e)
+
+            def visit_Name(self, e):
+                if e.id == X and isinstance(e.ctx, ast.Load):
+                    t = tup(range(5))
+                    generated.add(id(t))
+                    return t
+                return e
+        for s in new.body:
+            Sub().visit(s)
+        if not Sub.ok:
+            return None
+        st.targets = [tup(range(5), ast.Store)]
+        extra = []
+
+    class Split(ast.NodeTransformer):
+        def visit_Assign(self, s):
+            if s is st and extra:
+                return extra + [s]
+            if id(s.value) in generated and len(s.targets) == 1 and isinstance(s.targets[0], (ast.Tuple, ast.List)) and len(s.targets[0].elts) == len(s.value.elts) \
+                    and not any(isinstance(t, ast.Starred) for t in s.targets[0].elts):
+                return [ast.copy_location(ast.Assign(targets=[t], value=v), s) for t, v in zip(s.targets[0].elts, s.value.elts)]
+            return s
+
+        def visit_FunctionDef(self, s):
+            return s if s is not new else self.generic_visit(s)
+    Split().visit(new)
+    ast.fix_missing_locations(new)
+    for parent in ast.walk(new):
+        for child in ast.iter_child_nodes(parent):
+            child._parent = parent
+    return new
+
+
+class _OneFunction:
+    """What find_env_loop asks the repository for: the function to read."""
+
+    def __init__(self, fn):
+        self.fn = fn
+
+    def func(self, qual):
+        return self.fn
+
+
+def _find_env_loop(repo, qual, cfgs):
+    try:
+        return find_env_loop(repo, qual, cfgs)
+    except AnalysisError:
+        fn2 = _split_step_result(repo, repo.func(qual))
+        if fn2 is None:
+            raise
+        (cfgs if cfgs is not None else {}).pop(qual, None)
+        return find_env_loop(_OneFunction(fn2), qual, cfgs)
+
+
 def _own_returns(fn):
     """Return statements of the function itself (not of nested functions)."""
     out, todo = [], list(fn.body)
@@ -657,6 +803,16 @@ def r2_budget(ck, repo, L):
 _LOGICAL = {"logical_or": "or", "logical_and": "and", "logical_not": "not", "bitwise_or": "or", "bitwise_and": "and"}
 
 
+def _defs_after_step(cfg, S, at, name):
+    """The definitions of ``name`` reaching ``at`` that a path from env.step can execute.  A definition that cannot follow env.step (the
+    initial value given before the loop: `done = False`) is never the latest one on a path that comes from env.step, provided such a
+    path passes another definition - which the callers require (the definition lies on every way from env.step to ``at``)."""
+    ds = cfg.defs_of(at, name)
+    if len(ds) > 1:
+        ds = [d for d in ds if d.node == S or cfg.paths_avoiding(S, d.node, set(), feasible=False) is not None]
+    return ds
+
+
 def _row_value(L, e, at, a, b, depth=0):
     """Value of the boolean expression ``e`` at node ``at`` when the latest env.step returned (terminated, truncated) = (a, b); None when it
     is not a function of the two flags this reader understands.  Reads through value-transparent wrappers (bool(...), np.asarray(...)),
@@ -687,7 +843,7 @@ def _row_value(L, e, at, a, b, depth=0):
     if isinstance(e, ast.Attribute) and isinstance(e.value, ast.Name) and getattr(L, "_repo", None) is not None:
         # field of an immutable record (NamedTuple / frozen dataclass) that was built from this step's results
         from ..loops import Origins
-        ds = cfg.defs_of(at, e.value.id)
+        ds = _defs_after_step(cfg, S, at, e.value.id)
         if len(ds) != 1 or ds[0].kind not in ("assign", "walrus", "unpack") or ds[0].node in (at, S) or cfg.paths_avoiding(S, at, {ds[0].node}, feasible=False) is not None:
             return None
         org = Origins(L)
@@ -695,7 +851,7 @@ def _row_value(L, e, at, a, b, depth=0):
         o = org.of_expr(e, at)
         return a if o == {("step", 2)} else b if o == {("step", 3)} else None
     if isinstance(e, ast.Name) and depth < 4:
-        ds = cfg.defs_of(at, e.id)
+        ds = _defs_after_step(cfg, S, at, e.id)
         if len(ds) != 1:
             return None
         d = ds[0]
@@ -1061,12 +1217,31 @@ def learners(repo, res: Resolver):
     """Functions that (transitively) perform a gradient-based parameter update."""
     g = res.call_graph()
     seeds = set()
+    GRAD = ("flax.nnx.value_and_grad", "flax.nnx.grad", "jax.grad", "jax.value_and_grad")
+
+    def grad_transform(r, depth=0):
+        """``r`` names a gradient transformation, or a module-level name of the package that is bound to the result of one (the
+        transformed function built once at import time instead of at every call: calling it computes the same gradient)."""
+        if r in GRAD:
+            return True
+        if r is None or depth > 3 or r.split(".")[0] != repo.PKG or not repo.has(r):
+            return False
+        try:
+            mi2, node = repo.lookup(r)
+        except Exception:
+            return False
+        v = node.value if isinstance(node, (ast.Assign, ast.AnnAssign)) else None
+        if isinstance(v, (ast.Name, ast.Attribute)):
+            return grad_transform(repo.resolve_expr(mi2, v), depth + 1)           # a second name for it
+        if isinstance(v, ast.Call) and isinstance(v.func, (ast.Name, ast.Attribute)):
+            return grad_transform(repo.resolve_expr(mi2, v.func), depth + 1)
+        return False
     for qual, fn, mi in repo.all_functions():
         has_grad = has_upd = False
         for n in ast.walk(fn):
             if isinstance(n, ast.Call):
                 r = repo.resolve_expr(mi, n.func) if isinstance(n.func, (ast.Name, ast.Attribute)) else None
-                if r in ("flax.nnx.value_and_grad", "flax.nnx.grad", "jax.grad", "jax.value_and_grad"):
+                if grad_transform(r):
                     has_grad = True
                 if isinstance(n.func, ast.Attribute) and n.func.attr == "update" and len(n.args) + len([k for k in n.keywords if k.arg is not None]) == 2:       # optimizer.update(model, grads), by position or keyword
                     has_upd = True
@@ -1770,8 +1945,59 @@ def r5_ducb_play_counter(ck, repo):
     cmi = cls._module
     ch = repo.func(C + ".choose_arm")
     in_print = {id(y) for x in ast.walk(ch) if isinstance(x, ast.Call) and dotted(x.func) == "print" for y in ast.walk(x)}
-    counters = sorted({x.args[0].attr for x in ast.walk(ch) if isinstance(x, ast.Call) and id(x) not in in_print and dotted(x.func) == "len" and len(x.args) == 1 and not x.keywords
-                       and isinstance(x.args[0], ast.Attribute) and dotted(x.args[0].value) == "self"})
+    lengths = sorted({x.args[0].attr for x in ast.walk(ch) if isinstance(x, ast.Call) and id(x) not in in_print and dotted(x.func) == "len" and len(x.args) == 1 and not x.keywords
+                      and isinstance(x.args[0], ast.Attribute) and dotted(x.args[0].value) == "self"})
+    # a history length is a count of plays when it decides something: it reaches a branch condition, or the arithmetic of the arm that is
+    # recorded / returned.  A length that only delimits the part of the history a sum runs over (range bounds, positions) decides nothing
+    # about the initial rounds: whatever bounds that container is judged by the sibling-agreement rule of the discounted mean.
+    def _is_len_of(x, A):
+        return isinstance(x, ast.Call) and dotted(x.func) == "len" and len(x.args) == 1 and not x.keywords and isinstance(x.args[0], ast.Attribute) and x.args[0].attr == A and dotted(x.args[0].value) == "self"
+
+    def _reads(e, A, derived):
+        """The value of ``e`` depends arithmetically on len(self.A): positions (subscripts), range bounds, comprehensions and the arguments
+        of repository functions are not arithmetic on the count."""
+        if e is None or id(e) in in_print:
+            return False
+        if _is_len_of(e, A) or (isinstance(e, ast.Name) and e.id in derived):
+            return True
+        if isinstance(e, (ast.Lambda, ast.ListComp, ast.SetComp, ast.DictComp, ast.GeneratorExp)):
+            return False
+        if isinstance(e, ast.Subscript):
+            return _reads(e.value, A, derived)
+        if isinstance(e, ast.Call):
+            d_ = dotted(e.func)
+            r_ = repo.resolve_expr(cmi, e.func) if isinstance(e.func, (ast.Name, ast.Attribute)) else None
+            if d_.split(".")[-1] in ("range", "arange") or not (d_ in _ARITH_CALLS or (r_ is not None and r_.split(".")[0] in _LIB_ARITH)):
+                return False
+        return any(_reads(c_, A, derived) for c_ in ast.iter_child_nodes(e))
+    counters = []
+    own_ = [x for x in _walk_own(ch)]
+    for A in lengths:
+        derived, changed = set(), True
+        while changed:
+            changed = False
+            for x in own_:
+                if isinstance(x, (ast.Assign, ast.AnnAssign, ast.AugAssign)) and x.value is not None:
+                    tg_ = x.targets if isinstance(x, ast.Assign) else [x.target]
+                    pairs_ = []
+                    for t_ in tg_:
+                        if isinstance(t_, (ast.Tuple, ast.List)) and isinstance(x.value, (ast.Tuple, ast.List)) and len(t_.elts) == len(x.value.elts) and not any(isinstance(y, ast.Starred) for y in list(t_.elts) + list(x.value.elts)):
+                            pairs_ += list(zip(t_.elts, x.value.elts))
+                        else:
+                            pairs_ += [(y, x.value) for y in (t_.elts if isinstance(t_, (ast.Tuple, ast.List)) else [t_])]
+                    for t_, v_ in pairs_:
+                        if isinstance(t_, ast.Name) and t_.id not in derived and _reads(v_, A, derived):
+                            derived.add(t_.id)
+                            changed = True
+                elif isinstance(x, ast.NamedExpr) and isinstance(x.target, ast.Name) and x.target.id not in derived and _reads(x.value, A, derived):
+                    derived.add(x.target.id)
+                    changed = True
+        decides = any(_reads(x.test, A, derived) for x in own_ if isinstance(x, (ast.If, ast.While, ast.IfExp, ast.Assert))) \
+            or any(_reads(x.value, A, derived) for x in own_ if isinstance(x, ast.Return)) \
+            or any(_reads(a_, A, derived) for x in own_ if isinstance(x, ast.Call) and isinstance(x.func, ast.Attribute) and x.func.attr in ("append", "insert", "extend") and id(x) not in in_print for a_ in x.args) \
+            or any(isinstance(x, ast.Compare) and id(x) not in in_print and _reads(x, A, derived) for x in own_)
+        if decides:
+            counters.append(A)
     if not counters:
         ck.note(f"{C}.choose_arm reads no history length: no play-counter obligation")
         return
@@ -2350,7 +2576,7 @@ def run(ck, repo: Repo, tier: str):
     # every environment loop is its own group: a loop written in a form the loop reader does not read leaves the others judged
     loops, unread_loops = {}, set()
     for q in ENV_LOOPS:
-        L_ = ck.guard(find_env_loop, repo, q, cfgs)
+        L_ = ck.guard(_find_env_loop, repo, q, cfgs)
         if L_ is None:
             unread_loops.add(q)
         else:
@@ -2472,6 +2698,21 @@ MUTANTS = [
     {"id": "c11-ducb-histories-tuple-assign-bounded", "file": "rl_blox/blox/mapb.py", "rule": "R5", "edits": [("import numpy as np\n", "from collections import deque\n\nimport numpy as np\n\n_MEMORY = 4 * 64\n"), ("        self.chosen_arms = []\n        self.rewards = []\n", "        self.chosen_arms, self.rewards = deque(maxlen=_MEMORY), deque(maxlen=_MEMORY)\n")]},
     {"id": "c11-td3-counter-from-start-copy-plus1", "file": _A + "td3.py", "rule": "R1", "find": "    step = global_step\n", "replace": "    first_step = global_step + 1\n    step = first_step\n"},
     {"id": "c11-ducb-rewards-truncated", "file": "rl_blox/blox/mapb.py", "rule": "R5", "find": "        self.rewards.append(r)\n", "replace": "        self.rewards.append(r)\n        self.rewards = self.rewards[-int(5.0 / (1.0 - self.gamma)):]\n"},
+    # the env.step result kept whole in one variable / handed to a five-field record and taken apart later: the five positions are read element-wise
+    {"id": "c11-qlearning-whole-result-reset-on-terminated-only", "file": _A + "q_learning.py", "rule": "R3", "edits": [("        next_observation, reward, terminated, truncated, info = env.step(\n            int(action)\n        )\n", "        outcome = env.step(int(action))\n        next_observation, reward, terminated, truncated, info = outcome\n"),
+        ("        if terminated or truncated:\n            if logger is not None:\n                logger.record_stat(\"return\", info", "        if terminated:\n            if logger is not None:\n                logger.record_stat(\"return\", info")]},
+    {"id": "c11-sarsa-sliced-result-reset-on-position-2-only", "file": _A + "sarsa.py", "rule": "R3", "edits": [("        next_observation, reward, terminated, truncated, info = env.step(\n            int(action)\n        )\n", "        res = env.step(int(action))\n        next_observation, reward = res[:2]\n        terminated, truncated = res[2], res[3]\n        info = res[-1]\n"),
+        ("        if terminated or truncated:\n", "        if res[2]:\n")]},
+    {"id": "c11-td3-record-from-starred-step-done-is-cut-only", "file": _A + "td3.py", "rule": "R3", "edits": [("def sample_target_actions(", "class _Outcome(NamedTuple):\n    successor: np.ndarray\n    payoff: float\n    ended: bool\n    cut: bool\n    extras: dict\n\n\ndef sample_target_actions("),
+        ("        next_obs, reward, termination, truncated, info = env.step(action)\n", "        outcome = _Outcome(*env.step(action))\n        next_obs, reward = outcome.successor, outcome.payoff\n        termination = outcome.ended\n        truncated = outcome.cut\n"),
+        ("        if termination or truncated:\n            if logger is not None:\n                logger.record_stat(\"return\"", "        if outcome.cut:\n            if logger is not None:\n                logger.record_stat(\"return\"")]},
+    # a gradient transformation built once at module level: the routine that calls it and steps the optimizer is still an update routine
+    {"id": "c11-ddpg-module-level-grad-ungated-actor-update", "file": _A + "ddpg.py", "rule": "R4", "edits": [("@nnx.jit\ndef ddpg_update_actor(", "_dpg_value_and_grad = nnx.value_and_grad(\n    deterministic_policy_gradient_loss, argnums=2\n)\n_actor_objective_grad = _dpg_value_and_grad\n\n\n@nnx.jit\ndef ddpg_update_actor("),
+        ("    actor_loss_value, grads = nnx.value_and_grad(\n        deterministic_policy_gradient_loss, argnums=2\n    )(q, observation, policy)\n", "    actor_loss_value, grads = _actor_objective_grad(q, observation, policy)\n"),
+        ("            termination=termination,\n        )\n\n        if global_step >= learning_starts:\n", "            termination=termination,\n        )\n        ddpg_update_actor(policy, policy_optimizer, q, jnp.asarray(obs)[None])\n\n        if global_step >= learning_starts:\n")]},
+    # the play count read through locals (count -> plays -> branch) of a container bounded independently of the arms
+    {"id": "c11-ducb-count-through-locals-bounded-deque", "file": "rl_blox/blox/mapb.py", "rule": "R5", "edits": [("import numpy as np\n", "from collections import deque\n\nimport numpy as np\n"), ("        self.rewards = []\n", "        self.rewards = deque(maxlen=256)\n"),
+        ("        if len(self.rewards) < 2 * self.n_arms:\n            arm_idx = len(self.rewards) % self.n_arms", "        history_length = len(self.rewards)\n        n_plays = int(history_length)\n        if n_plays < 2 * self.n_arms:\n            arm_idx = n_plays % self.n_arms")]},
 ]
 BENIGN = [
     {"id": "c11-b-amt-warm-up-int", "file": _A + "active_mt.py", "find": '            learning_starts=learning_starts,\n            total_timesteps=total_timesteps,\n', "replace": '            learning_starts=int(learning_starts),\n            total_timesteps=total_timesteps,\n'},
@@ -2532,4 +2773,16 @@ BENIGN = [
     {"id": "c11-b-ducb-count-local", "file": "rl_blox/blox/mapb.py", "edits": [("        if len(self.rewards) < 2 * self.n_arms:\n            arm_idx = len(self.rewards) % self.n_arms", "        n_plays = len(self.rewards)\n        if not n_plays >= self.n_arms * 2:\n            arm_idx = n_plays % self.n_arms")]},
     {"id": "c11-b-td3-counter-from-start-copy", "file": _A + "td3.py", "find": "    step = global_step\n", "replace": "    first_step = int(global_step)\n    step = first_step\n"},
     {"id": "c11-b-sac-result-keyword-local", "file": _A + "sac.py", "find": "        replay_buffer,\n        step,\n    )", "replace": "        replay_buffer,\n        global_step=int(step),\n    )"},
+    # the env.step result kept whole / indexed / sliced / handed to a five-field record: same program as naming the five positions at the call
+    {"id": "c11-b-qlearning-whole-result", "file": _A + "q_learning.py", "find": "        next_observation, reward, terminated, truncated, info = env.step(\n            int(action)\n        )\n", "replace": "        outcome = env.step(int(action))\n        next_observation, reward, terminated, truncated, info = outcome\n"},
+    {"id": "c11-b-qlearning-indexed-result", "file": _A + "q_learning.py", "find": "        next_observation, reward, terminated, truncated, info = env.step(\n            int(action)\n        )\n", "replace": "        res = env.step(int(action))\n        next_observation = res[0]\n        reward = res[1]\n        terminated = bool(res[2])\n        truncated = bool(res[-2])\n        info = res[4]\n"},
+    {"id": "c11-b-sarsa-sliced-result", "file": _A + "sarsa.py", "edits": [("        next_observation, reward, terminated, truncated, info = env.step(\n            int(action)\n        )\n", "        res = env.step(int(action))\n        next_observation, reward = res[:2]\n        terminated, truncated = res[2:4]\n        info = res[-1]\n"), ("        if terminated or truncated:\n", "        if res[2] or res[3]:\n")]},
+    {"id": "c11-b-td3-record-from-starred-step", "file": _A + "td3.py", "edits": [("def sample_target_actions(", "class _Outcome(NamedTuple):\n    successor: np.ndarray\n    payoff: float\n    ended: bool\n    cut: bool\n    extras: dict\n\n\ndef sample_target_actions("),
+        ("        next_obs, reward, termination, truncated, info = env.step(action)\n", "        outcome = _Outcome(*env.step(action))\n        next_obs, reward = outcome.successor, outcome.payoff\n        termination = outcome.ended\n        truncated = outcome.cut\n"),
+        ("        if termination or truncated:\n            if logger is not None:\n                logger.record_stat(\"return\"", "        if outcome.cut or outcome.ended:\n            if logger is not None:\n                logger.record_stat(\"return\"")]},
+    {"id": "c11-b-sac-whole-result-helper", "file": _A + "sac.py", "edits": [("def sac_actor_loss(", "def _advance(env, action):\n    outcome = env.step(action)\n    return outcome\n\n\ndef sac_actor_loss("), ("        next_obs, reward, termination, truncation, info = env.step(action)\n", "        next_obs, reward, termination, truncation, info = _advance(env, action)\n")]},
+    {"id": "c11-b-ddpg-module-level-grad", "file": _A + "ddpg.py", "edits": [("@nnx.jit\ndef ddpg_update_actor(", "_dpg_value_and_grad = nnx.value_and_grad(\n    deterministic_policy_gradient_loss, argnums=2\n)\n_actor_objective_grad = _dpg_value_and_grad\n\n\n@nnx.jit\ndef ddpg_update_actor("),
+        ("    actor_loss_value, grads = nnx.value_and_grad(\n        deterministic_policy_gradient_loss, argnums=2\n    )(q, observation, policy)\n", "    actor_loss_value, grads = _actor_objective_grad(q, observation, policy)\n")]},
+    # a history length that only delimits a window over the history is not a count of plays (the holder of the object may drop the unseen last choice)
+    {"id": "c11-b-ducb-chosen-arms-length-as-window-only", "file": "rl_blox/blox/mapb.py", "find": "            ducb = mean + padding\n", "replace": "            n_recorded = len(self.chosen_arms)\n            recent_arms = [self.chosen_arms[s] for s in range(max(0, n_recorded - 250), n_recorded)]\n            ducb = mean + padding\n"},
 ]
